@@ -500,6 +500,7 @@ func c08Check(t *T, p c08Prog) {
 	}
 	m.commit() // end of chain
 
+	t.Tracef("writer saw [%s] body %q; model expects [%s]", rec.CallLog(), rec.Body.String(), callLog(m.log))
 	if !callsEqual(m.log, rec.Calls) {
 		sig := "call-log-differs"
 		switch {
